@@ -11,8 +11,7 @@ RULE = ("trees of N small files (one block each in the main ladder, so that ever
         "RLIMIT_NOFILE=1024 by both drivers at fixed worker counts, with the supervisor keeping the dispatcher and walker ahead of the "
         "workers (role priorities: workers lowest, so back-pressure is what stops the dispatcher) and, as controls, free and pct "
         "schedules. The supervisor's shadow descriptor table (cross-checked against /proc/<pid>/fd) yields the peak number of "
-        "simultaneously open descriptors. Oracle: exit 0; no system call returns EMFILE/ENFILE; peak(largest N) <= peak(smallest "
-        "saturating N) + slack at the same driver/workers/schedule (the bound may depend on the worker count, not on N). "
+        "simultaneously open descriptors. Oracle: exit 0; no system call returns EMFILE/ENFILE; under the slow-workers schedule (saturation is deterministic there) peak(largest N) <= peak(smallest N) + slack at the same driver/workers, and with three rungs growth must persist over the last two steps; free/pct runs are judged on exit status and EMFILE only (the bound may depend on the worker count, not on N). "
         "distinct_nontrivial = distinct (driver, workers, N, schedule)")
 ASSUMPTIONS = ["no particular constant is demanded (the pool's queue length is an implementation detail); slack = 16 descriptors",
                "N >= 1000 saturates the queue (128 blocks) at every worker count used"]
@@ -146,7 +145,14 @@ def finalize(rep, cases, results, tier, seed):
         runs.sort(key=lambda d: d["n"])
         lo, hi = runs[0], runs[-1]
         table.append({"driver": lo["driver"], "workers": lo["workers"], "sched": lo["sname"], "peaks": {str(d["n"]): d["peak"] for d in runs}})
-        if len(runs) >= 2 and hi["peak"] > lo["peak"] + 16:
+        # The growth test is only sound where saturation is deterministic: under the slow-workers schedule the dispatcher/walker
+        # run until back-pressure stops them, so even the smallest N fills the queue.  Under free/pct schedules how far the
+        # producers get ahead is a matter of timing (a small tree may never saturate), so there only exit status and EMFILE count.
+        # With three or more rungs the peak must keep growing over the last two steps to be called growth.
+        growing = len(runs) >= 2 and hi["peak"] > lo["peak"] + 16
+        if growing and len(runs) >= 3:
+            growing = runs[-1]["peak"] > runs[-2]["peak"] + 16 and runs[-2]["peak"] > runs[-3]["peak"] + 16
+        if growing and lo["sname"].startswith("slow-workers"):
             rep.violation("%s:peak-grows-with-files" % lo["driver"],
                           "peak open descriptors grows with the number of files: %s (driver %s, workers %d, sched %s)"
                           % ({d["n"]: d["peak"] for d in runs}, lo["driver"], lo["workers"], lo["sname"]),
